@@ -201,7 +201,9 @@ func CheckC04(r *Report) {
 	if r.Tier == "thorough" {
 		sweepV4Lift(r, 1, nil, nil)
 	} else {
-		sweepV4Lift(r, 1, func(c spec.V4Class) bool { return diag9(c) && c[spec.V4AC] == c[spec.V4AT] && c[spec.V4PR] == c[spec.V4UI] }, nil)
+		sweepV4Lift(r, 1, func(c spec.V4Class) bool {
+			return diag9(c) && c[spec.V4AC] == c[spec.V4AT] && c[spec.V4PR] == c[spec.V4UI]
+		}, nil)
 	}
 	mv := map[[6]int]bool{}
 	for idx := 0; idx < spec.V4NumClasses; idx += 1 {
